@@ -30,6 +30,7 @@ StashPushOK(h, i, w) ==
     /\ h # i \/ \E p \in Present(i) : w[p] # i[p]           \* there is something to stash
     /\ \A p \in Present(h) : i[p] # NoCell                   \* nothing removed from the index
     /\ \A p \in Present(i) : w[p] # NoCell                   \* every tracked path is a file or link of the directory
+    /\ \A p \in Present(i) : i[p] # h[p] => w[p] # h[p]      \* what is staged at a path is not undone in the directory
     /\ NoCollision({u \in Present(w) : u \notin Tracked(h, i)}, h)
     /\ NoCollision({u \in Present(w) : u \notin Tracked(h, i)}, i)
 
